@@ -223,7 +223,8 @@ def r55(e: Engine, rep: Report):
             rep.error('anchor vanished: DataSender.' + mname)
     # literals kept as class-level constants count like literals in the
     # code that uses them
-    for st in c.node.body:
+    # (class level or module level of the sender's module)
+    for st in list(c.node.body) + list(c.module.tree.body):
         if isinstance(st, ast.Assign) and \
                 isinstance(st.value, ast.Constant) and \
                 isinstance(st.value.value, bytes) and \
